@@ -871,7 +871,10 @@ class BlockwiseRequest(BaseUnicastRequest, interfaces.Request):
             obs = weak_observation()
             if app_request.opt.observe is not None and obs is not None:
                 logged = True
-                obs.error(e)
+                if not obs.cancelled:
+                    # (it may have ended already -- as "not observable",
+                    # typically --, and an observation ends only once)
+                    obs.error(e)
             if not logged:
                 # should be unreachable
                 log.error(
